@@ -15,6 +15,7 @@ import (
 	"io"
 	"log"
 	"net/http"
+	"strings"
 	"sync"
 	"testing"
 	"time"
@@ -29,7 +30,7 @@ func TestVerifC01DoH(t *testing.T) {
 	rep := report.New("C01 DoH upstream replies")
 	defer rep.Write()
 	bodies := []string{"valid", "empty", "garbage", "cut", "header-only", "70000-zeros", "valid+trailing", "pointer-loop"}
-	framings := []string{"content-length", "no-length(chunked / h2 data frames)", "gzip", "content-length-too-big", "declared-70000"}
+	framings := []string{"content-length", "no-length(chunked / h2 data frames)", "gzip", "content-length-too-big", "declared-70000", "declared-2^62(http/1.1)", "declared-2^31(http/1.1)"}
 	statuses := []int{200, 500, 204}
 	protos := []string{"h2", "http/1.1"}
 	rep.Rule = fmt.Sprintf("real NewUpstream(\"https://...\") against a local net/http TLS server; full matrix protocol %v x status %v x body %v x framing %v; after every case an ordinary exchange (valid body, Content-Length); "+
@@ -107,6 +108,26 @@ func TestVerifC01DoH(t *testing.T) {
 			w.Header().Set("Content-Length", fmt.Sprint(len(b)+10)) // the server then cuts the connection short
 			w.WriteHeader(st)
 			w.Write(b)
+		case "declared-2^62(http/1.1)", "declared-2^31(http/1.1)":
+			// a length no honest server declares: written on the raw connection (net/http would not send it), then the body, then the
+			// connection is closed
+			hj, ok := w.(http.Hijacker)
+			if !ok {
+				w.WriteHeader(500)
+				return
+			}
+			conn, bw, err := hj.Hijack()
+			if err != nil {
+				return
+			}
+			cl := "4611686018427387904"
+			if fr == "declared-2^31(http/1.1)" {
+				cl = "2147483648"
+			}
+			fmt.Fprintf(bw, "HTTP/1.1 %d X\r\nContent-Type: application/dns-message\r\nContent-Length: %s\r\n\r\n", st, cl)
+			bw.Write(b)
+			bw.Flush()
+			conn.Close()
 		case "declared-70000":
 			w.Header().Set("Content-Length", "70000")
 			w.WriteHeader(st)
@@ -150,6 +171,9 @@ func TestVerifC01DoH(t *testing.T) {
 					if st == 204 && (bd != "empty" || fr != "content-length") {
 						continue // a 204 has no body
 					}
+					if strings.HasSuffix(fr, "(http/1.1)") && proto != "http/1.1" {
+						continue // needs the raw connection
+					}
 					mu.Lock()
 					body, framing, status = bd, fr, st
 					mu.Unlock()
@@ -157,7 +181,7 @@ func TestVerifC01DoH(t *testing.T) {
 					rep.Eval(desc)
 					s, ok, xerr := exchange()
 					// a complete well-formed message followed by more octets (trailing bytes, zero padding up to the declared length) decodes
-					wellFormed := (bd == "valid" || bd == "valid+trailing") && fr != "content-length-too-big"
+					wellFormed := (bd == "valid" || bd == "valid+trailing") && fr != "content-length-too-big" && !strings.HasSuffix(fr, "(http/1.1)")
 					if ok && (s != 7 || !wellFormed || st != 200) {
 						rep.Violate("C01:doh-reply:accepted-bad-reply", fmt.Sprintf("the exchange returned a message (serial %d) for %s", s, desc), nil)
 					}
